@@ -228,6 +228,10 @@ def grid_mprod(dmax):
                 out.append(dict(d=d, modes=tuple(c), form='list'))
         if d >= 2:
             out.append(dict(d=d, modes=(1, 0), form='list'))
+        # a mode may be listed more than once: the factors act one after the other
+        out.append(dict(d=d, modes=(0, 0), form='list'))
+        if d >= 2:
+            out.append(dict(d=d, modes=(1, 0, 1), form='list'))
     return out
 
 
@@ -236,7 +240,11 @@ def mprod(ob, d, modes, form):
     ex = ob.ex
     x = ob.tt('x', d)
     L = H.sym_sizes(ex, 'L', len(modes))
-    Fs = [T.atom_tensor('F%d' % j, [L[j], x.N_[m]], ob.dt()) for j, m in enumerate(modes)]
+    cur = list(x.N_)
+    Fs = []
+    for j, m in enumerate(modes):
+        Fs.append(T.atom_tensor('F%d' % j, [L[j], cur[m]], ob.dt()))      # factor j acts on the current size of mode m
+        cur[m] = L[j]
     for j, F in enumerate(Fs):
         ex.register_arg(F, 'F%d' % j)
     ob.describe('L', L)
@@ -247,22 +255,25 @@ def mprod(ob, d, modes, form):
         r = ex.call(ex.getattr(x, 'mprod'), [Fs, list(modes)])
     ob.wf(r)
     f = fields(ob, r)
-    want = list(x.N_)
-    for j, m in enumerate(modes):
-        want[m] = L[j]
+    want = list(cur)
     all_eq(ob, 'N', f['N'], want)
     all_eq(ob, 'R', f['R'], x.R_, 'rank')
     if len(f['N']) == d:
         idx = mode_index(ob, r)
 
         def g(js):
+            # js[j] = column index of factor j; its row index is the column index of the next factor on the same mode (or the result index)
             sub = list(idx)
             t = Term.of(1)
-            for j, m in enumerate(modes):
-                sub[m] = js[j]
-                t = t * Fs[j].at([idx[m], js[j]])
+            nxt = {}
+            for j in reversed(range(len(modes))):
+                m = modes[j]
+                t = t * Fs[j].at([nxt.get(m, idx[m]), js[j]])
+                nxt[m] = js[j]
+            for m, v in nxt.items():
+                sub[m] = v
             return t * val(ob, x, sub)
-        ob.prove_eq('value', val(ob, r, idx), sum_over(ex, [x.N_[m] for m in modes], g))
+        ob.prove_eq('value', val(ob, r, idx), sum_over(ex, [F.shape[1] for F in Fs], g))
     ob.frame()
 
 
